@@ -96,6 +96,11 @@ def build(jobs=16, timeout=1500):
         rc2, out2 = _run(['make', '-n', '-k'], 300)
         info.stale = sorted(set(re.findall(r'COQC (\S+\.v)', out2)))
         info.cheats = cheat_scan()
+        # write(2) logging shim for C04 (LD_PRELOAD)
+        shim_c = os.path.join(common.ROOT, 'harness', 'shim', 'wlog.c')
+        shim_so = os.path.join(common.ROOT, 'harness', 'shim', 'wlog.so')
+        if os.path.exists(shim_c) and (not os.path.exists(shim_so) or os.path.getmtime(shim_so) < os.path.getmtime(shim_c)):
+            _run(['cc', '-shared', '-fPIC', '-O1', '-o', shim_so, shim_c, '-ldl'], 120, cwd=os.path.dirname(shim_c))
         # extracted runner
         src_ml = os.path.join(COQ, 'model.ml')
         ok_extract = 'theories/Extract/Extract.v' not in info.stale and os.path.exists(src_ml)
